@@ -550,26 +550,30 @@ theorem world_accrue_crank_spec {c : Ctx} {b : Bank} (h : World.accrueIx c = .ok
     reached state with its bank accrued to the current time first, every share and token computed at those values -/
 theorem world_tx_instructions_run_at_accrued_values {w w' : WState} {tx : List TOp} (h : w.runTx tx = some w') (i : Nat) :
     (∀ ai bi signer amount upTo, tx[i]? = some (.ix (.deposit ai bi signer amount upTo)) →
-      ∃ (c : Ctx) (o : Out), World.deposit c amount upTo = .ok o ∧ WorldAtAccrued c o) ∧
+      ∃ (wi : WState) (a : AcctV) (b : WBank) (o : Out), w.before tx i = some wi ∧ wi.accts[ai]? = some a ∧ wi.banks[bi]? = some b ∧
+        World.deposit (wi.ctx a b signer b.v.liquidityVault 0) amount upTo = .ok o ∧ WorldAtAccrued (wi.ctx a b signer b.v.liquidityVault 0) o) ∧
     (∀ ai bi signer amount, tx[i]? = some (.ix (.borrow ai bi signer amount)) →
-      ∃ (c : Ctx) (o : Out), World.borrow c amount = .ok o ∧ WorldAtAccrued c o) ∧
+      ∃ (wi : WState) (a : AcctV) (b : WBank) (o : Out), w.before tx i = some wi ∧ wi.accts[ai]? = some a ∧ wi.banks[bi]? = some b ∧
+        World.borrow (wi.ctx a b signer b.v.liquidityVault 0) amount = .ok o ∧ WorldAtAccrued (wi.ctx a b signer b.v.liquidityVault 0) o) ∧
     (∀ ai bi signer amount all vault, tx[i]? = some (.ix (.withdraw ai bi signer amount all vault)) →
-      ∃ (c : Ctx) (o : Out), World.withdraw c amount all = .ok o ∧ WorldAtAccrued c o) ∧
+      ∃ (wi : WState) (a : AcctV) (b : WBank) (o : Out), w.before tx i = some wi ∧ wi.accts[ai]? = some a ∧ wi.banks[bi]? = some b ∧
+        World.withdraw (wi.ctx a b signer b.v.liquidityVault vault) amount all = .ok o ∧ WorldAtAccrued (wi.ctx a b signer b.v.liquidityVault vault) o) ∧
     (∀ ai bi signer amount all, tx[i]? = some (.ix (.repay ai bi signer amount all)) →
-      ∃ (c : Ctx) (o : Out), World.repay c amount all = .ok o ∧ WorldAtAccrued c o) := by
+      ∃ (wi : WState) (a : AcctV) (b : WBank) (o : Out), w.before tx i = some wi ∧ wi.accts[ai]? = some a ∧ wi.banks[bi]? = some b ∧
+        World.repay (wi.ctx a b signer b.v.liquidityVault 0) amount all = .ok o ∧ WorldAtAccrued (wi.ctx a b signer b.v.liquidityVault 0) o) := by
   refine ⟨?_, ?_, ?_, ?_⟩
   · intro ai bi signer amount upTo hi
-    obtain ⟨wi, a, b, o, _, _, ho⟩ := tx_deposit_ran h hi
-    exact ⟨_, o, ho, (world_instructions_run_at_accrued_values _).1 amount upTo o ho⟩
+    obtain ⟨wi, a, b, o, hbef, ha, hb, ho⟩ := tx_deposit_ran h hi
+    exact ⟨wi, a, b, o, hbef, ha, hb, ho, (world_instructions_run_at_accrued_values _).1 amount upTo o ho⟩
   · intro ai bi signer amount hi
-    obtain ⟨wi, a, b, o, _, _, ho⟩ := tx_borrow_ran h hi
-    exact ⟨_, o, ho, (world_instructions_run_at_accrued_values _).2.1 amount o ho⟩
+    obtain ⟨wi, a, b, o, hbef, ha, hb, ho⟩ := tx_borrow_ran h hi
+    exact ⟨wi, a, b, o, hbef, ha, hb, ho, (world_instructions_run_at_accrued_values _).2.1 amount o ho⟩
   · intro ai bi signer amount all vault hi
-    obtain ⟨wi, a, b, o, _, _, ho⟩ := tx_withdraw_ran h hi
-    exact ⟨_, o, ho, (world_instructions_run_at_accrued_values _).2.2.1 amount all o ho⟩
+    obtain ⟨wi, a, b, o, hbef, ha, hb, ho⟩ := tx_withdraw_ran h hi
+    exact ⟨wi, a, b, o, hbef, ha, hb, ho, (world_instructions_run_at_accrued_values _).2.2.1 amount all o ho⟩
   · intro ai bi signer amount all hi
-    obtain ⟨wi, a, b, o, _, _, ho⟩ := tx_repay_ran h hi
-    exact ⟨_, o, ho, (world_instructions_run_at_accrued_values _).2.2.2.1 amount all o ho⟩
+    obtain ⟨wi, a, b, o, hbef, ha, hb, ho⟩ := tx_repay_ran h hi
+    exact ⟨wi, a, b, o, hbef, ha, hb, ho, (world_instructions_run_at_accrued_values _).2.2.2.1 amount all o ho⟩
 
 /-- **world_accrue_crank_twice_is_a_no_op**: the permissionless crank run again at the same time on the books it left — by anybody,
     any number of times — leaves them exactly as they are (accruing twice at the same time is a no-op, as a whole instruction) -/
